@@ -38,6 +38,37 @@ def call(mt):
     return "{ " + body + " }," if end == "," else body
 
 
+def defs_loops(k, header, kw, body):
+    mt = re.search(r"while\s+(__\w+)\s*<\s*([\w\.@]+)\.len\(\)", header)
+    if not mt:
+        return None
+    i, place = mt.group(1), mt.group(2)
+    base = f"invariant {i} <= {place}.len(), closed(*self_), grows(c0, *self_),\n"
+    if place == "__ss":
+        return (base + "  __ss@ == env_structs(goenv),\n"
+                "  forall|i: int| 0 <= i < __si && emitted_struct((#[trigger] __ss@[i]).0, __ss@[i].1) ==> struct_covered(*self_, __ss@[i].1),\n"
+                "decreases __ss.len() - __si,")
+    if place == "def.fields":
+        return (base + "  __ss@ == env_structs(goenv),\n"
+                "  forall|i: int| 0 <= i < __si - 1 && emitted_struct((#[trigger] __ss@[i]).0, __ss@[i].1) ==> struct_covered(*self_, __ss@[i].1),\n"
+                f"  forall|j: int| 0 <= j < {i} ==> covers(*self_, (#[trigger] def.fields@[j]).1),\n"
+                f"decreases def.fields.len() - {i},")
+    en = ("  __es@ == env_enums(goenv), __ss@ == env_structs(goenv),\n"
+          "  forall|i: int| 0 <= i < __ss.len() && emitted_struct((#[trigger] __ss@[i]).0, __ss@[i].1) ==> struct_covered(*self_, __ss@[i].1),\n")
+    if place == "__es":
+        return (base + en + "  forall|i: int| 0 <= i < __ei && emitted_enum((#[trigger] __es@[i]).0, __es@[i].1) ==> enum_covered(*self_, __es@[i].1),\n"
+                "decreases __es.len() - __ei,")
+    prev = "  forall|i: int| 0 <= i < __ei - 1 && emitted_enum((#[trigger] __es@[i]).0, __es@[i].1) ==> enum_covered(*self_, __es@[i].1),\n"
+    if place == "def.variants":
+        return (base + en + prev + f"  forall|v: int| 0 <= v < {i} ==> variant_covered(*self_, #[trigger] def.variants@[v]),\n"
+                f"decreases def.variants.len() - {i},")
+    if place == "fields":
+        return (base + en + prev + "  forall|v: int| 0 <= v < __vi - 1 ==> variant_covered(*self_, #[trigger] def.variants@[v]),\n"
+                f"  forall|j: int| 0 <= j < {i} ==> covers(*self_, #[trigger] fields@[j]),\n"
+                f"decreases fields.len() - {i},")
+    return None
+
+
 UNIT = Unit(
     name="U-RTTYPES",
     properties=["C02"],
@@ -68,5 +99,32 @@ UNIT = Unit(
                                     "proof { lemma_walk_start(c0, ty0); }"),
                   ("@exit", "", "proof { " + RESUME + " lemma_walk_done(*self_, c0, ty0, done); }")],
            loop_fn=ty_loops),
+        Fn(file=GC, name="collect_runtime_types", rename="collect_defs", attrs="#[verifier::loop_isolation(false)]", rules=["attrs", ("strip", "tast::")],
+           cut_from="fn collect_defs(&mut self, goenv: &GlobalGoEnv) {", cut_inside=True, cut_before="@block-end",
+           sig="fn collect_defs(self_: &mut Collector, goenv: &GlobalGoEnv)",
+           rewrites=[(re.compile(r"\bself\.collect_type\(([^()]+)\);"),
+                      r"let ghost __c = *self_; collect_type(self_, \1); proof { lemma_closed_call(__c, *self_, *\1); lemma_covers_mono_all(__c, *self_); }", "*")],
+           pre_rewrites=[(re.compile(r"for\ \(name,\ def\)\ in\ goenv\.structs\(\)\ \{"), "let __ss = goenv_structs(goenv); let mut __si: usize = 0; while __si < __ss.len() { let name = &__ss[__si].0; let def = &__ss[__si].1; __si += 1;", "*"),
+                         (re.compile(r"for\ \(name,\ def\)\ in\ goenv\.enums\(\)\ \{"), "let __es = goenv_enums(goenv); let mut __ei: usize = 0; while __ei < __es.len() { let name = &__es[__ei].0; let def = &__es[__ei].1; __ei += 1;", "*"),
+                         (re.compile(r"for\ \(_,\ ty\)\ in\ \&def\.fields\ \{"), "let mut __fi: usize = 0; while __fi < def.fields.len() { let ty = &def.fields[__fi].1; __fi += 1;", "*"),
+                         (re.compile(r"for\ \(_,\ fields\)\ in\ \&def\.variants\ \{"), "let mut __vi: usize = 0; while __vi < def.variants.len() { let fields = &def.variants[__vi].1; __vi += 1;", "*"),
+                         (re.compile(r"for\ ty\ in\ fields\ \{"), "let mut __ti: usize = 0; while __ti < fields.len() { let ty = &fields[__ti]; __ti += 1;", "*")],
+           obligation="every field type of every emitted struct definition and every payload type of every emitted enum definition is covered by the "
+                      "collected sets afterwards; the sets stay closed and only grow",
+           contract="requires closed(*old(self_)),\nensures closed(*final(self_)), grows(*old(self_), *final(self_)), defs_covered(*final(self_), goenv),",
+           ghost=[("@entry", "", "let ghost c0 = *self_;")],
+           loop_fn=defs_loops),
+        Fn(file=GC, name="collect_runtime_types", rename="collect_file", ret="r", attrs="#[verifier::loop_isolation(false)]", rules=["attrs", ("strip", "tast::"), "for_index"],
+           cut_from=re.compile(r"fn collect_file\(\s*mut self,\s*file: &anf::File,\s*goenv: &GlobalGoEnv,\s*\) -> \(IndexSet<tast::Ty>, IndexSet<tast::Ty>, IndexSet<tast::Ty>\) \{"),
+           cut_inside=True, cut_before="@block-end",
+           sig="fn collect_file(self0: Collector, file: &AnfFile, goenv: &GlobalGoEnv) -> (IndexSet<Ty>, IndexSet<Ty>, IndexSet<Ty>)",
+           rewrites=[(re.compile(r"\bself\.collect_fn\("), "collect_fn(&mut self_, ", "*"), (re.compile(r"\bself\.collect_defs\("), "collect_defs(&mut self_, ", "*"),
+                     (re.compile(r"\bself\."), "self_.", "*")],
+           obligation="the three sets handed to the generators of the TupleN_.. structs and the array / ref helpers cover every field and payload type of "
+                      "every emitted type definition (the definitions are walked after the function bodies, before the sets are returned)",
+           contract="requires closed(self0),\nensures defs_covered(Collector { tuples: r.0, arrays: r.1, refs: r.2 }, goenv),",
+           pre_rewrites=[(re.compile(r"(-> \(IndexSet<Ty>, IndexSet<Ty>, IndexSet<Ty>\) \{\n)"), r"\1let mut self_ = self0;\n", 1),
+                         (re.compile(r"\bfor item in &file\.toplevels \{"), r"let ghost __dc = defs_covered(self_, goenv); for item in &file.toplevels {", "*")],
+           loop_fn=lambda k, header, kw: "invariant __fk0 <= file.toplevels.len(), closed(self_), __dc ==> defs_covered(self_, goenv),\ndecreases file.toplevels.len() - __fk0," if "__fk0" in header else None),
     ],
 )
